@@ -34,6 +34,7 @@ EdgeColWhy(H, k, cols) ==
 JudgeC09Var(G, want, v) ==
     LET H == Relabel(G, v.pi)  r == v.r IN
     IF Crashed(v.res) THEN v.res
+    ELSE IF ~r.same THEN "an invariant function changed the graph it was given"
     ELSE IF r.clique # want.omega THEN "CliqueNumber differs from the definition"
     ELSE IF r.indep # want.alpha THEN "IndependenceNumber differs from the definition"
     ELSE IF Len(r.maxcliques) # Cardinality(MaximalCliques(H)) \/ { SeqRange(c) : c \in SeqRange(r.maxcliques) } # MaximalCliques(H)
@@ -65,6 +66,7 @@ Pull(pi, S) == { i \in 0..(Len(pi) - 1) : pi[i + 1] \in S }
 JudgeC10Var(G, want, v) ==
     LET r == v.r  n == G.n  pi == v.pi IN
     IF Crashed(v.res) THEN v.res
+    ELSE IF ~r.same THEN "an invariant function changed the graph it was given"
     ELSE IF \E a, b \in Verts(n) : r.dist[a + 1][b + 1] # want.D[pi[a + 1] + 1][pi[b + 1] + 1] THEN "Distance differs from the shortest-path definition"
     ELSE IF Len(r.ecc) # n \/ (IF want.conn THEN \E a \in Verts(n) : r.ecc[a + 1] # want.ecc[pi[a + 1] + 1] ELSE ~AllMinusOne(r.ecc)) THEN "Eccentricity differs from the definition"
     ELSE IF r.diam # want.diam THEN "Diameter differs from the definition"
@@ -99,6 +101,7 @@ WantC10(G, e) ==
 (* ---------------- C11 ---------------- *)
 JudgeC11Var(want, v) ==
     IF Crashed(v.res) THEN "IsPlanar " \o v.res
+    ELSE IF ~v.r.same THEN "IsPlanar changed the graph it was given"
     ELSE IF v.r.planar # want THEN (IF want THEN "IsPlanar says non-planar for a planar graph" ELSE "IsPlanar says planar for a graph with a K5 or K3,3 minor")
     ELSE ""
 
